@@ -472,7 +472,9 @@ def mpf_bernoulli(n, prec, rnd=None):
         if m > 6:
             bin1 = bin1 * ((2+m)*(3+m)) // ((m-7)*(m-6))
         state[:] = [m, bin, bin1]
-    return numbers[n]
+    if not rnd:
+        return numbers[n]
+    return mpf_pos(numbers[n], prec, rnd)
 
 def mpf_bernoulli_huge(n, prec, rnd=None):
     wp = prec + 10
@@ -645,13 +647,13 @@ algorithm.)
 def mpf_harmonic(x, prec, rnd):
     if x in (fzero, fnan, finf):
         return x
-    a = mpf_psi0(mpf_add(fone, x, prec+5), prec)
+    a = mpf_psi0(mpf_add(fone, x, prec+5), prec+5)
     return mpf_add(a, mpf_euler(prec+5, rnd), prec, rnd)
 
 def mpc_harmonic(z, prec, rnd):
     if z[1] == fzero:
         return (mpf_harmonic(z[0], prec, rnd), fzero)
-    a = mpc_psi0(mpc_add_mpf(z, fone, prec+5), prec)
+    a = mpc_psi0(mpc_add_mpf(z, fone, prec+5), prec+5)
     return mpc_add_mpf(a, mpf_euler(prec+5, rnd), prec, rnd)
 
 def mpf_psi0(x, prec, rnd=round_fast):
@@ -711,7 +713,7 @@ def mpf_psi0(x, prec, rnd=round_fast):
             break
         prev = term
         k += 1
-    return from_man_exp(s, -wp, wp, rnd)
+    return from_man_exp(s, -wp, prec, rnd)
 
 def mpc_psi0(z, prec, rnd=round_fast):
     """
@@ -762,7 +764,7 @@ def mpc_psi0(z, prec, rnd=round_fast):
             break
         prev = term
         k += 1
-    return s
+    return mpc_pos(s, prec, rnd)
 
 # Currently unoptimized
 def mpf_psi(m, x, prec, rnd=round_fast):
@@ -771,7 +773,7 @@ def mpf_psi(m, x, prec, rnd=round_fast):
     m >= 0, for a real argument x.
     """
     if m == 0:
-        return mpf_psi0(x, prec, rnd=round_fast)
+        return mpf_psi0(x, prec, rnd)
     return mpc_psi(m, (x, fzero), prec, rnd)[0]
 
 def mpc_psi(m, z, prec, rnd=round_fast):
@@ -943,7 +945,7 @@ def mpf_zeta_int(s, prec, rnd=round_fast):
                         break
                     a = mpf_sub(fone, mpf_pow_int(from_int(k), -s, powprec), wp)
                     t = mpf_mul(t, a, wp)
-                return mpf_div(fone, t, wp)
+                return mpf_div(fone, t, prec, rnd)
     # Use Borwein's algorithm
     n = int(wp/2.54 + 5)
     d = borwein_coefficients(n)
